@@ -182,7 +182,7 @@ def proof_check(ctx, extra_targets=()):
             cur = line[6:].strip(); axioms[cur] = []
         elif cur is not None:
             m = re.match(r"^([A-Za-z_][A-Za-z0-9_.']*)\s*:", line)
-            if m:
+            if m and m.group(1) != "Axioms":
                 axioms[cur].append(m.group(1))
     notallowed = []
     for th, axs in axioms.items():
